@@ -203,7 +203,13 @@ class Extractor:
             nm = n['referencedDecl'].get('name')
             if nm in fenv:
                 return fenv[nm]
+            if getattr(self, 'opaque_scalars', False) and fe.is_float_type(n):
+                return Rat(Poly.atom('S:' + nm))             # a scalar computed elsewhere: an opaque symbol (opt-in)
             raise Unsupported('scalar %s' % nm)
+        if k == 'UnaryOperator' and n.get('opcode') == '*' and getattr(self, 'opaque_scalars', False):
+            x = strip(kids(n)[0])
+            if x.get('kind') == 'DeclRefExpr' and fe.is_float_type(n):
+                return Rat(Poly.atom('S:*' + x['referencedDecl'].get('name')))
         if k == 'CallExpr' and callee_name(n) == 'square':
             x = self.rat(call_args(n)[0], ienv, fenv)
             return x * x
@@ -456,6 +462,8 @@ class Extractor:
 
     def store(self, arr, idx, op, rhs, loops, ienv, fenv, node):
         r0 = strip(rhs)
+        if getattr(self, 'ignore_out', None) and self.ignore_out(arr):
+            return                                        # a container the caller declared irrelevant (opt-in)
         if op == '=':
             # setter form  X = X + term
             if r0.get('kind') == 'BinaryOperator' and r0.get('opcode') == '+':
@@ -463,6 +471,12 @@ class Extractor:
                 ca = self.cell_ref(a, ienv)
                 if ca and ca[0] == arr and [str(x) for x in ca[1]] == [str(x) for x in idx]:
                     op, rhs, r0 = '+=', b, strip(b)
+            elif r0.get('kind') == 'BinaryOperator' and r0.get('opcode') == '-' and getattr(self, 'allow_sub', False):
+                a, b = kids(r0)
+                ca = self.cell_ref(a, ienv)
+                if ca and ca[0] == arr and [str(x) for x in ca[1]] == [str(x) for x in idx]:
+                    self.emit((arr, idx), '+=', -self.rat(b, ienv, fenv), loops, node)
+                    return
         if op == '=' and r0.get('kind') == 'DeclRefExpr' and r0['referencedDecl'].get('name') in self.acc and \
                 (r0['referencedDecl'].get('name') not in fenv or r0['referencedDecl'].get('name') in getattr(self, 'promoted', set())):
             for term, lp, nd in self.acc[r0['referencedDecl'].get('name')]:
@@ -483,6 +497,9 @@ class Extractor:
                 for term, lp, nd in self.acc[x0['referencedDecl'].get('name')]:
                     self.emit((arr, idx), '+=', term / sc if r0['opcode'] == '/' else term * sc, lp, nd)
                 return
+        if op == '-=' and getattr(self, 'allow_sub', False):
+            self.emit((arr, idx), '+=', -self.rat(rhs, ienv, fenv), loops, node)
+            return
         if op not in ('=', '+=', '/=', '*='):
             raise Unsupported('store operator %s' % op)
         self.emit((arr, idx), op, self.rat(rhs, ienv, fenv), loops, node)
